@@ -1,7 +1,7 @@
 """C17 - Key-correctness proofs accept good keys and reject bad ones (KeyProof.tla, parts a and b)."""
 import json, os
 from concurrent.futures import ThreadPoolExecutor
-import vplib
+import vplib, zkstage
 
 # each of these configurations must violate the named invariant (non-vacuity of the claims)
 PROBES = [("KeyProof.a.nonvacuous1.cfg", "NoProvableKey", "a toy key the library's prover accepts is among the walked moduli"),
@@ -55,7 +55,10 @@ def run(chk):
                 "math/big; (2) the OR node expStep as a component: either branch real, every leaf altered, forgery with both branches simulated; (3) random good "
                 "keys (48..96-bit primes, 1..4 bases): BuildProof, VerifyProof, JSON round trip, every leaf enumerated by reflection and classified by the "
                 "grammar, TLC's cases applied to a seeded sample in worker processes: must-reject cases accepted, panics (also in the verifier's goroutines) and "
-                "rejected honest proofs are VIOLATIONs. Non-trivial = distinct (leaf class, alteration) / (modulus shape, component) case.")
+                "rejected honest proofs are VIOLATIONs. (4) ZkProof.tla (Group variant): the representation-proof engine of the Camenisch-Michels sub-proofs in the concrete group "
+                "zkproof.BuildGroup(23) - Pedersen, multiplication-type, constant-left-hand-side and single-base statements with prover-supplied bases over all residues "
+                "(subgroup, non-residues, -1, 0); invariants Complete (for bases in the subgroup), Sound2 (special soundness), Absorbing; every case (48,384) is evaluated by "
+                "the real engine and compared exactly. Non-trivial = distinct (leaf class, alteration) / (modulus shape, component) / engine case.")
     chk.assumptions = ["SHA-256 / HashCommit idealised in the model (random oracle); the harness derives challenges with the library's GetHashNumber (C15 covers its encoding)",
                        "toy number theory is exhaustive below the bounds only; above them the harness' provers are best effort (roots by CRT, subgroup search below 2^22)",
                        "soundness of the Camenisch-Michels sub-proofs (exponentiation, primality) is covered structurally (every leaf bound by the hash), not number-theoretically",
@@ -93,6 +96,8 @@ def run(chk):
         print("NOTE C17: " + res["notes"]["observation_range"])
     res = vplib.vh("kp", ["full", "--in", path, "--tier", T, "--seed", seed], timeout=3300)
     chk.add_replay(res, "full_proof")
+    # the representation-proof engine underneath, in a concrete toy group (ZkProof.tla)
+    zkstage.run(chk, "group")
     n = res.get("notes", {})
     if not res["violations"] and (res.get("counts", {}).get("keys", 0) < 2 or n.get("leaf_kind_x_branch_altered", 0) < 20 or n.get("class_kind_pairs_executed", 0) < 300):
         raise vplib.Machinery("full-proof replay is vacuous: %s" % n)
